@@ -92,6 +92,7 @@ Fixpoint cut_exec (maxttl now : Z) (st log : list centry) (ops : list cutop) : Z
       | None => cut_exec maxttl now st log t
       end
   | OpAdvance s :: t => cut_exec maxttl (now + s) st log t
+  | OpPurge q qclass :: t => cut_exec maxttl now (cut_purge st (canon q) qclass) log t
   | OpLookup _ _ _ _ _ :: t => cut_exec maxttl now st log t
   end.
 
@@ -101,12 +102,13 @@ Lemma cut_exec_inv maxttl ops now st log now' st' log' :
 Proof.
   revert now st log. induction ops as [|op t IH]; intros now st log Hinv; cbn.
   - intros E. inversion E; subst. exact Hinv.
-  - destruct op as [m denied zone cu ok|s|q qc cd f fw].
+  - destruct op as [m denied zone cu ok|s|q qc cd f fw|q qc].
     + destruct (cut_record maxttl now st m (canon denied) (canon zone) cu) as [st1|] eqn:Er.
       * apply IH. intros e He. apply in_or_app. left. exact He.
       * apply IH. exact Hinv.
     + apply IH. exact Hinv.
     + apply IH. exact Hinv.
+    + apply IH. intros e He. apply Hinv. unfold cut_purge in He. apply filter_In in He. tauto.
 Qed.
 
 (* every entry of the state, and of the log, was created by an accepted record *)
@@ -130,13 +132,14 @@ Lemma cut_exec_created maxttl ops now st log now' st' log' :
 Proof.
   revert now st log. induction ops as [|op t IH]; intros now st log Hst Hlog; cbn.
   - intros E. inversion E; subst. exact Hlog.
-  - destruct op as [m denied zone cu ok|s|q qc cd f fw].
+  - destruct op as [m denied zone cu ok|s|q qc cd f fw|q qc].
     + destruct (cut_record maxttl now st m (canon denied) (canon zone) cu) as [st1|] eqn:Er.
       * pose proof (cut_record_created _ _ _ _ _ _ _ _ Hst Er) as Hc.
         apply IH; [exact Hc|]. intros e He. apply in_app_or in He. destruct He; [apply Hc | apply Hlog]; assumption.
       * apply IH; assumption.
     + apply IH; assumption.
     + apply IH; assumption.
+    + apply IH; [|assumption]. intros e He. apply Hst. unfold cut_purge in He. apply filter_In in He. tauto.
 Qed.
 
 (* cut_cache_sound: for every history of records (accepted or refused), clock advances and
